@@ -1334,16 +1334,23 @@ func (env *SpecEnv) ghostApp(sf *SpecFunc, args []Val, rt types.Type) Val {
 		var ps []string
 		for _, a := range args {
 			fv, ok := a.(*FV)
-			if !ok || len(fv.L) != 1 {
-				env.errf("ghost function %s: only scalar parameters are supported", sf.Name)
+			if !ok {
+				env.errf("ghost function %s: only flat parameters (scalars, interfaces, slices, strings) are supported", sf.Name)
 			}
-			ps = append(ps, string(fv.L[0].Sort))
+			// a multi-leaf value (interface: type and value word) is passed leaf by leaf
+			for _, l := range fv.L {
+				ps = append(ps, string(l.Sort))
+			}
 		}
 		vc.extraDecls = append(vc.extraDecls, fmt.Sprintf("(declare-fun %s (%s) %s)", name, strings.Join(ps, " "), rs))
 	}
 	var ts []Term
 	for _, a := range args {
-		ts = append(ts, a.(*FV).L[0])
+		fv, ok := a.(*FV)
+		if !ok {
+			env.errf("ghost function %s: only flat parameters are supported", sf.Name)
+		}
+		ts = append(ts, fv.L...)
 	}
 	return env.widen(scalar(rt, app(rs, name, ts...)))
 }
